@@ -33,6 +33,10 @@ structure Obs where
   stuck : Bool            -- the call did not return while only calls on other keys were being held
   panicked : Bool := false  -- the call panicked
   spanic : Bool := false    -- scripted: the function panics (outside the property's quantifier; see Props.lean)
+  goexit : Bool := false    -- the call's goroutine was ended by `runtime.Goexit` (observed `panic=2`)
+  pk : Nat := 1             -- scripted: how the function ends abnormally (1 panic(string), 2 panic(error value), 3 runtime.Goexit)
+  ek : Nat := 1             -- scripted: class of the error value (1 pointer, 2 wrapped, 3 value-typed, 4 typed nil)
+  ep : Nat := 0             -- the public entry point of the user the call went through
   deriving Repr
 
 def Obs.ran (o : Obs) : Bool := o.runs > 0
@@ -96,8 +100,21 @@ def panicViolation (r : Obs) : Option String :=
   if r.panicked && !(r.ran && r.spanic) then
     some s!"panic: call {r.id} on key {r.key} panicked although its own function did not" else none
 
+/-- how a call may end abnormally: by `runtime.Goexit` iff its OWN function ran and called it (the deferred cleanup runs,
+nothing is returned to anybody on that goroutine); by a panic otherwise (own function's panic, or a joiner's type
+assertion).  A call whose function called Goexit cannot return. -/
+def exitKindViolation (r : Obs) : Option String :=
+  if r.goexit && !(r.ran && r.spanic && r.pk = 3) then
+    some s!"panic: call {r.id} on key {r.key} was ended by runtime.Goexit although its own function did not call it"
+  else if r.ran && r.spanic && r.pk = 3 && !r.goexit && !r.stuck then
+    some s!"panic: the function of call {r.id} on key {r.key} called runtime.Goexit but the call ended differently (panicked={r.panicked})"
+  else if r.ran && r.spanic && r.pk ≠ 3 && !r.panicked && !r.stuck then
+    some s!"panic: the function of call {r.id} on key {r.key} panicked but the call returned normally (a swallowed panic)"
+  else none
+
 def sfViolations (h : List Obs) : List (Nat × String) :=
   exclusiveViolations h
+  ++ h.filterMap (fun r => (exitKindViolation r).map (r.line, ·))
   ++ h.filterMap (fun r => if r.panicked then none else (noStaleViolation h r).map (r.line, ·))
   ++ h.filterMap (fun r => if r.panicked then none else (freshViolation r).map (r.line, ·))
   ++ h.filterMap (fun r => if r.runs > 1 then some (r.line, s!"exclusive: function of call {r.id} executed {r.runs} times") else none)
@@ -114,6 +131,7 @@ def ownFnViolation (r : Obs) : Option String :=
 
 def lcViolations (h : List Obs) : List (Nat × String) :=
   exclusiveViolations h
+  ++ h.filterMap (fun r => (exitKindViolation r).map (r.line, ·))
   ++ h.filterMap (fun r => (ownFnViolation r).map (r.line, ·))
   ++ h.filterMap (fun r => (stuckViolation r).map (r.line, ·))
   ++ h.filterMap (fun r => (panicViolation r).map (r.line, ·))
@@ -130,7 +148,14 @@ def rmCallViolation (nilJoin : Bool) (inj : List (Nat × Nat)) (h : List Obs) (r
   match r.val, r.err with
   | some v, none =>
     if created.any (·.id = v) then none
-    else some s!"rm-same-instance: call {r.id} (key {r.key}) got instance {v} which no successful create of that key made"
+    -- the harness overwrites a caller's destination with 900000 + call id once that caller's call has returned
+    else if v ≥ 900000 then
+      some (s!"rm-snapshot: call {r.id} (key {r.key}) was handed the content of the destination variable of call {v - 900000} as it was " ++
+            "AFTER that call had returned: the shared result aliases the leader's memory instead of being a snapshot made inside the execution")
+    else match h.find? (fun c => c.id = v && c.created) with
+      | some c => some (s!"rm-snapshot: call {r.id} (key {r.key}) got instance {v}, which the create of call {c.id} made for key {c.key}: " ++
+                        "not a value any execution for its own key produced")
+      | none => some s!"rm-same-instance: call {r.id} (key {r.key}) got instance {v} which no successful create of that key made"
   | none, some e =>
     match h.find? (·.id = e) with
     | some l =>
@@ -162,6 +187,7 @@ def rmPanicViolation (h : List Obs) (r : Obs) : Option String :=
 
 def rmViolations (nilJoin : Bool) (inj : List (Nat × Nat)) (h : List Obs) : List (Nat × String) :=
   exclusiveViolations h
+  ++ h.filterMap (fun r => (exitKindViolation r).map (r.line, ·))
   ++ rmKeyViolations h
   ++ h.filterMap (fun r => if r.panicked then none else (rmCallViolation nilJoin inj h r).map (r.line, ·))
   ++ h.filterMap (fun r => if r.runs > 1 then some (r.line, s!"rm: create of call {r.id} executed {r.runs} times") else none)
